@@ -293,6 +293,9 @@ def plan(tier):
                 units.append((a, b))
     for hunks in (3300, 14000, 60000):      # ~70 KB, ~330 KB, ~1.5 MB
         units.append(('scale', hunks))
+    for ia in range(len(THREAD_OPS)):
+        for ib in range(ia, len(THREAD_OPS)):
+            units.append(('threads', ia, ib))
     return {
         'units': units,
         'rule': 'explicit-state BFS over a pool of %d live trees plus one '
@@ -317,6 +320,166 @@ def plan(tier):
                         'per call (sharing the caller\'s own dict is normal '
                         'Python semantics, not library aliasing)'],
     }
+
+
+# ------------------------------------------------------------- interleavings
+# Two real threads, each running one whole operation (serialise with the
+# shared writer, to_bytes, parse with the shared reader) under the
+# controlled scheduler of mc/sched.py. Scheduling points: every write to an
+# output stream, every read from an input stream, every items() of a
+# metadata dict (reached from inside json.dumps). Every interleaving with
+# at most `bound` preemptions is executed on fresh objects.
+
+import threading
+
+_CTL = {}
+
+
+def _yield_point():
+    ctl = _CTL.get(threading.get_ident())
+    if ctl is not None:
+        ctl.point()
+
+
+class YieldDict(dict):
+    def items(self):
+        _yield_point()
+        return dict.items(self)
+
+
+class PointStream(io.BytesIO):
+    def write(self, b):
+        _yield_point()
+        return io.BytesIO.write(self, b)
+
+
+class PointReadStream(io.BytesIO):
+    def read(self, *a):
+        _yield_point()
+        return io.BytesIO.read(self, *a)
+
+
+def thread_world():
+    w = World()
+    a = DiffX(preamble='first\n', meta=YieldDict(k=['v'], z=1))
+    ca = a.add_change(preamble='ca\n', meta=YieldDict(id='a'))
+    ca.add_file(meta=YieldDict(path='fa'), diff=SAMPLE_DIFF)
+    b = DiffX(encoding='utf-16', preamble='second\n',
+              meta=YieldDict(other='tree'))
+    cb = b.add_change(meta=YieldDict(id='b'), encoding='latin-1')
+    cb.add_file(meta=YieldDict(path='fb'), diff=b'x\r\n',
+                diff_type='binary')
+    cb.add_file(meta=YieldDict(path='fc'))
+    w.trees[0], w.trees[1] = a, b
+    return w
+
+
+THREAD_OPS = [('write-shared', 0), ('write-shared', 1), ('to-bytes', 0),
+              ('to-bytes', 1), ('parse', 0), ('parse', 1), ('parse', 3)]
+
+
+def thread_body(w, op):
+    name, j = op
+
+    def body(ctl):
+        _CTL[threading.get_ident()] = ctl
+        try:
+            if name == 'write-shared':
+                st = PointStream()
+                w.writer.write_stream(w.trees[j], st)
+                return st.getvalue()
+            if name == 'to-bytes':
+                return w.trees[j].to_bytes()
+            if name == 'parse':
+                t = w.reader.parse(PointReadStream(FILES[j]))
+                return fsnap(t)
+        finally:
+            _CTL.pop(threading.get_ident(), None)
+    return body
+
+
+def sequential_result(op):
+    w = thread_world()
+    return thread_body(w, op)(None)
+
+
+def run_thread_unit(unit, tier):
+    from mc import sched
+    _, ia, ib = unit
+    opa, opb = THREAD_OPS[ia], THREAD_OPS[ib]
+    bound = 2 if tier == 'quick' else 3
+    acc = Acc()
+    want = [sequential_result(opa), sequential_result(opb)]
+    tree_snaps = [fsnap(t) for t in thread_world().trees[:2]]
+
+    def make():
+        w = thread_world()
+        return [thread_body(w, opa), thread_body(w, opb)], w
+
+    def check(x, w):
+        v = []
+        for t, op in enumerate((opa, opb)):
+            if x.errors[t] is not None:
+                v.append(('interleaved-op-raised:%s:%s:%s'
+                          % (op[0], type(x.errors[t]).__name__,
+                             site_of(x.errors[t])),
+                          '%r raised %r' % (op, x.errors[t])))
+            elif x.results[t] != want[t]:
+                v.append(('interleaved-op-result-differs:%s' % op[0],
+                          '%r gave a result that differs from running it '
+                          'alone' % (op,)))
+        for j in range(2):
+            if fsnap(w.trees[j]) != tree_snaps[j]:
+                v.append(('interleaved-observers-changed-tree',
+                          'tree %d changed' % j))
+        acc.evals += 1
+        acc.transitions += len(x.trace)
+        acc.validated += 1
+        acc.nontrivial += 1
+        acc.outcome('ok' if not v else 'violation')
+        return v
+
+    n, ntraces, viols, capped = sched.explore(make, check, bound=bound)
+    acc.states = ntraces
+    seen = set()
+    for trace, choices, (key, msg) in viols:
+        if key in seen and len(seen) > 3:
+            continue
+        seen.add(key)
+        acc.violation(key, '%s\nthreads: 0 = %r, 1 = %r; schedule (thread '
+                      'run at each point) %r' % (msg, opa, opb,
+                                                 list(trace)),
+                      {'kind': 'threads', 'ops': [ia, ib],
+                       'choices': list(choices)})
+    acc.sample({'thread_ops': [list(opa), list(opb)],
+                'preemption_bound': bound, 'executions': n,
+                'distinct_schedules': ntraces}, 1)
+    return acc
+
+
+def replay_threads(payload):
+    from mc import sched
+    ia, ib = payload['ops']
+    opa, opb = THREAD_OPS[ia], THREAD_OPS[ib]
+    want = [sequential_result(opa), sequential_result(opb)]
+    snaps = [fsnap(t) for t in thread_world().trees[:2]]
+    w = thread_world()
+    x = sched.Execution([thread_body(w, opa), thread_body(w, opb)],
+                        payload['choices']).run()
+    out = []
+    for t, op in enumerate((opa, opb)):
+        if x.errors[t] is not None:
+            out.append({'key': 'interleaved-op-raised:%s:%s:%s'
+                        % (op[0], type(x.errors[t]).__name__,
+                           site_of(x.errors[t])), 'msg': repr(x.errors[t])})
+        elif x.results[t] != want[t]:
+            out.append({'key': 'interleaved-op-result-differs:%s' % op[0],
+                        'msg': repr(op)})
+    for j in range(2):
+        if fsnap(w.trees[j]) != snaps[j]:
+            out.append({'key': 'interleaved-observers-changed-tree',
+                        'msg': 'tree %d' % j})
+    return out
 
 
 def run_scale_unit(unit):
@@ -351,6 +514,8 @@ def run_scale_unit(unit):
 def run_unit(unit, tier):
     if unit[0] == 'scale':
         return run_scale_unit(unit)
+    if unit[0] == 'threads':
+        return run_thread_unit(unit, tier)
     acc = Acc()
     g0 = module_globals_snapshot()
     ops = ops_for(2 if tier == 'quick' else NSLOTS)
@@ -398,6 +563,8 @@ def run_unit(unit, tier):
 
 
 def replay(payload):
+    if payload.get('kind') == 'threads':
+        return replay_threads(payload)
     if payload.get('kind') != 'hist':
         return []
     hist = [tuple(o) for o in payload['hist']]
